@@ -68,18 +68,20 @@ def one_case(ctx, e, rng, ci):
         goal = r.choice(["M", "M", "N", "Y"])
         include_bad = r.random() < 0.3
         size_gib = r.choice([None, None, 0.5, 1, 2.5]) if goal != "Y" else None
+        if ci % 13 == 5 and goal != "Y":
+            size_gib = 0           # boundary: a budget of nothing ("stop once the total reaches SIZE") selects nothing - or is refused
         targets = r.sample(ix.groups, k=min(len(ix.groups), r.choice([1, 1, 2, 3, 4]))) if r.random() < 0.45 else []
         days = r.choice([2, 5, 20]) if r.random() < 0.25 else None
         argv = ["node", "clean", node.name, "--force", "--archive-ok"] + argv_filters
         argv += {"M": [], "N": ["--now"], "Y": ["--cancel"]}[goal]
         argv += ["--include-bad"] if include_bad else []
-        argv += ["--size", str(size_gib)] if size_gib else []
+        argv += ["--size", str(size_gib)] if size_gib is not None else []
         for g in targets:
             argv += ["--target", g.name]
         argv += ["--days", str(days)] if days else []
         keep = spec_keep(ix, acq, listed, targets, days)
         rows, cstr = kcopies(db, node)
-        size_b = int(size_gib * 2 ** 30) if size_gib else None
+        size_b = int(size_gib * 2 ** 30) if size_gib is not None else None
         res["model_line"] = f"kclean {int(include_bad)} {goal} {'-' if size_b is None else size_b} {cstr} {','.join(map(str, sorted(keep))) or '-'}"
         # spec (help text): candidates in id order; budget prefix; those not already at the goal
         cand = [c for c in rows if (c.has_file != "N" if include_bad else c.has_file == "Y") and c.file_id in keep]
@@ -87,7 +89,7 @@ def one_case(ctx, e, rng, ci):
             exp = [c.id for c in cand if (c.wants_file == "Y" if goal == "M" else c.wants_file != goal)]
         else:
             exp, tot = [], 0
-            for c in cand:
+            for c in (cand if size_b > 0 else []):
                 tot += c.file.size_b or 0
                 if not (c.wants_file == goal or (goal == "M" and c.wants_file == "N")):
                     exp.append(c.id)
